@@ -27,6 +27,23 @@ const (
 type mBody struct {
 	items []*mItem
 	free  []tok
+	// oneLine: the body of a block loaded from the single-line form; the first
+	// append converts the block to the multi-line form, which moves its
+	// argument (and a comment after the brace) to a line of its own
+	oneLine bool
+}
+
+// reflow is called before anything is appended to a body.
+func (b *mBody) reflow() {
+	if !b.oneLine {
+		return
+	}
+	b.oneLine = false
+	for _, it := range b.items {
+		if it.attr != nil {
+			it.attr.unit = nil
+		}
+	}
 }
 
 type mItem struct {
@@ -79,6 +96,7 @@ func modelFromAttribution(ab *aBody, parent *mBody) *mBody {
 		if it.isBlock {
 			bl := &mBlock{typ: it.name, labels: it.labels, hdr: it.unit, parent: mb, oneLine: it.oneLine}
 			bl.body = modelFromAttribution(it.body, mb)
+			bl.body.oneLine = it.oneLine
 			mb.items = append(mb.items, &mItem{block: bl})
 		} else {
 			a := &mAttr{name: it.name, kind: expOrig, exprTok: it.exprTok, unit: it.unit, nvars: len(it.expr.Variables())}
@@ -278,6 +296,7 @@ func (s *sim) applyBodyOp(op *OpM, tb *hclwrite.Body, mb *mBody) {
 		}
 		a, _ := mb.attr(op.Name)
 		if a == nil {
+			mb.reflow()
 			a = &mAttr{name: op.Name}
 			mb.items = append(mb.items, &mItem{attr: a})
 			s.probe("set_new_attribute")
@@ -304,7 +323,9 @@ func (s *sim) applyBodyOp(op *OpM, tb *hclwrite.Body, mb *mBody) {
 		toks := buildRaw(op.Raw)
 		exp := rawToks(toks)
 		setAttr("SetAttributeRaw", func() *hclwrite.Attribute { return tb.SetAttributeRaw(op.Name, toks) },
-			func(a *mAttr) { a.kind, a.exprTok, a.nvars = expTokens, exp, -1 }) // raw tokens are documented not to be analysed
+			// "an expression created by NewExpressionRaw will produce an empty
+			// result for calls to its method Variables" (until it is re-loaded)
+			func(a *mAttr) { a.kind, a.exprTok, a.nvars = expTokens, exp, 0 })
 	case "rename":
 		var ok bool
 		s.call("RenameAttribute", func() { ok = tb.RenameAttribute(op.Name, op.Name2) })
@@ -341,6 +362,7 @@ func (s *sim) applyBodyOp(op *OpM, tb *hclwrite.Body, mb *mBody) {
 	case "append_new_block":
 		var blk *hclwrite.Block
 		s.call("AppendNewBlock", func() { blk = tb.AppendNewBlock(op.Type, op.Labels) })
+		mb.reflow()
 		m := &mBlock{typ: op.Type, labels: append([]string{}, op.Labels...), body: &mBody{}, parent: mb}
 		mb.items = append(mb.items, &mItem{block: m})
 		s.handles = append(s.handles, handle{blk, m})
@@ -355,6 +377,7 @@ func (s *sim) applyBodyOp(op *OpM, tb *hclwrite.Body, mb *mBody) {
 			s.applyBodyOp(&op.Pre[i], bb, m.body)
 		}
 		s.call("AppendBlock", func() { tb.AppendBlock(blk) })
+		mb.reflow()
 		m.parent = mb
 		mb.items = append(mb.items, &mItem{block: m})
 		s.handles = append(s.handles, handle{blk, m})
@@ -373,6 +396,7 @@ func (s *sim) applyBodyOp(op *OpM, tb *hclwrite.Body, mb *mBody) {
 			return // would make the block its own ancestor
 		}
 		s.call("AppendBlock", func() { tb.AppendBlock(h.blk) })
+		mb.reflow()
 		h.m.parent = mb
 		mb.items = append(mb.items, &mItem{block: h.m})
 		s.res.Effective++
@@ -470,6 +494,7 @@ func (s *sim) applyBodyOp(op *OpM, tb *hclwrite.Body, mb *mBody) {
 		s.probe("clear_body")
 	case "append_newline":
 		s.call("AppendNewline", func() { tb.AppendNewline() })
+		mb.reflow()
 	default:
 		panic("op kind " + op.Kind)
 	}
@@ -855,6 +880,7 @@ func (s *sim) saveReload() {
 	// its fate from here on.
 	if ab, d := attributeSource(src); !d.HasErrors() {
 		refreeze(s.root, ab)
+		recount(s.root, ab)
 	}
 	// only the bytes survive: handles to detached blocks are gone, the others
 	// are re-resolved by path
@@ -909,6 +935,22 @@ func refreeze(mb *mBody, ab *aBody) {
 			refreeze(it.block.body, ab.items[bi].body)
 		}
 		bi++
+	}
+}
+
+// recount: after a reload every expression has been parsed, so Variables()
+// reports what the parser finds in it, whatever the expression was set from.
+func recount(mb *mBody, ab *aBody) {
+	for i, it := range mb.items {
+		if i >= len(ab.items) {
+			return
+		}
+		ai := ab.items[i]
+		if it.attr != nil && !ai.isBlock && ai.expr != nil {
+			it.attr.nvars = len(ai.expr.Variables())
+		} else if it.block != nil && ai.isBlock {
+			recount(it.block.body, ai.body)
+		}
 	}
 }
 
@@ -1009,6 +1051,9 @@ func runHistory(h *History) (res *Result) {
 	var nb *hclwrite.Body
 	s.call("File.Body", func() { nb = nf.Body() })
 	s.file = nf // accessor failures are reported against the reloaded tree
+	if ab, d := attributeSource(src); !d.HasErrors() {
+		recount(s.root, ab)
+	}
 	s.checkAccessors(nb, s.root, "<reloaded>")
 	var again []byte
 	s.call("File.Bytes", func() { again = nf.Bytes() })
